@@ -26,7 +26,7 @@ import (
 
 func init() {
 	Register(&Prop{
-		ID: "C05", Engine: "B", Quick: 20000, Thorough: 300000, Level: "exploration",
+		ID: "C05", Engine: "B", Quick: 20000, Thorough: 150000, Level: "exploration",
 		Rule: "each history = 1..6 frames produced by the real compress.Writer (payload lengths boundary-biased; compressible, incompressible, all-zero and position-tagged contents; None, LZ4, LZ4HC at every level incl. 0 and >12, ZSTD), read back through compress.Reader or proto.Reader with caller buffers of drawn sizes from a source that delivers drawn segments; fault-free histories must return exactly the payloads; faulty histories alter one byte at a drawn offset (for frames <= 512 bytes in the thorough tier: every offset x 3 masks), force size fields beyond the limits under a valid checksum, or cut the stream, and keep reading after the first error; oracle = an independent frame parser that knows each frame's extent and integrity; distinct = distinct (stream, fault, read plan) digests; non-trivial = a fault was injected or more than one frame / more than one segment",
 		Run:  runC05,
 	})
